@@ -9,6 +9,7 @@ from harness.ns import QNAMES
 
 ID = "C10"
 LEAN_MODULES = ["Pypika.Props.C10"]
+TRACE_BUILDER = True   # builder calls made by this check are also run through Pypika.B.step (harness/trace.py)
 THEOREMS = ["Pypika.C10.nsName_alias", "Pypika.C10.nsName_name", "Pypika.C10.field_qualified", "Pypika.C10.alias_always",
             "Pypika.C10.field_bare", "Pypika.C10.wantsNamespace_iff", "Pypika.C10.statement_namespace",
             "Pypika.C10.schema_outermost_first", "Pypika.C10.invented_names_distinct", "Pypika.C10.invented_names_distinct_calls"]
